@@ -154,8 +154,17 @@ impl<T: BitRead> PackedRead for T {
             ))
         })?;
         if range > 0 {
-            Ok(lower_bound
-                + self.read_non_negative_binary_integer(None, Some(range as u64))? as i64)
+            let offset = self.read_non_negative_binary_integer(None, Some(range as u64))?;
+            if offset > range as u64 {
+                // the bit-field is wide enough for offsets beyond the range
+                return Err(ErrorKind::ValueNotInRange(
+                    lower_bound.saturating_add_unsigned(offset),
+                    lower_bound,
+                    upper_bound,
+                )
+                .into());
+            }
+            Ok(lower_bound + offset as i64)
         } else {
             Ok(lower_bound)
         }
